@@ -97,6 +97,9 @@ def battery():
     out.append(c((A(2), A(3)), PyTree[Float[N, "a"]]))  # top level: no cross-leaf binding? (bindings are throw-away)
     out.append(c(real.jax_array((2,)), Float[N, "a"]))  # wrong array type
     out.append(c(A(2, dt="int32"), Int[N, "a"]))
+    out.append(c(np.zeros(3, dtype=np.int64), jaxtyping.Int64[N, "a"]))
+    out.append(c(np.zeros(3, dtype=np.uint64), jaxtyping.UInt[N, "a"]))
+    out.append(c(np.zeros(3, dtype=np.float64), jaxtyping.Float64[N, "a"]))
     out.append(c(A(2), Int[N, "a"]))
     out.append(c("hello", Float[N, "..."]))
     out.append(c(A(2, 3), pickle.loads(pickle.dumps(Float[N, "a b"]))))
@@ -197,6 +200,9 @@ def catalogue(sh):
     ops["two_structured"] = lambda: ctx(lambda: real.check([[A(2)]], PyTree[PyTree[Shaped[N, "?k"], "S"], "T"]))
     ops["pep604_then_union"] = lambda: (PyTree[int | str], PyTree[typing.Union[int, str]], real.check([1.5], PyTree[int | str]))
     ops["union_then_pep604"] = lambda: (PyTree[typing.Union[int, float]], PyTree[int | float])
+    # dtypes that compare (and hash) equal to the canonical ones although they are different scalar types:
+    # a dtype-keyed memo anywhere in the check would let them answer for their twins later on
+    ops["alias_dtype_arrays"] = lambda: [real.check(np.zeros(3, dtype=dt), Shaped[N, "..."]) for dt in (np.longlong, np.ulonglong, np.dtype("=i8").newbyteorder("="), np.dtype([("a", np.uint8)], align=True))]
     # annotations that would collide with the battery's under a too-coarse construction-cache key
     ops["construct_variants"] = lambda: (
         PyTree[int, "T U"], PyTree[int, "U"], PyTree[int, "... T"], PyTree[int], PyTree[str, "T"], PyTree[Float[N, "a"]],
